@@ -26,6 +26,18 @@ CHECKS = {
    technique='bounded exhaustive enumeration of Wasm bodies x all subsets of interrupting host calls (deviation enumeration), differential against the uninterrupted / freshly compiled run',
    text='For every enumerated body and build: the serialised artifact parsed zero-copy and converted to owned behaves identically (result, trap, memory, tick sequence, host events) to the freshly compiled one and re-serialises byte-identically; for bodies with host calls every subset of call sites interrupts and is resumed with the same response, and outcome, memory, ticks and events equal the uninterrupted run; running twice gives identical observations.',
    note='Chain-level resume (v1::resume_receive with state) is covered by C14/C15 engines, not here. Trusted: the recording host; interrupts beyond the first 5-7 host calls of an execution never interrupt.'),
+ 'C03': dict(engine='mc-state', ref='DESIGN.md §5 C03',
+   technique='explicit-state breadth-first search over operation histories of the real trie (state = history rebuilt by replay, canonical-state dedup) + undeduplicated stateless DFS; every step compared with an ordered-map reference model',
+   text='All histories up to the completed depth over insert / overwrite / get_mut / set / delete / delete_prefix / iterate / next / delete_iter / checkpoint / rollback / commit / freeze+thaw on a 7-key alphabet of mutually prefixing and stem-splitting keys with inline and indirect values, from three initial states (empty, thawed in memory, thawed from the backing store). After every step: the operation result, point lookups, and the full ordered read-out of every live generation and of the originating persistent state are compared with a stack of BTreeMaps. Two dedup keys are used (exact structural identity at lower depth, model state + table sizes deeper) plus a search without any dedup.',
+   note='Trusted: the BTreeMap model, hook H1 wrappers (forwarding only), the slab stand-in. Keys/values outside the alphabet and histories beyond the depth are not covered.'),
+ 'C04': dict(engine='mc-state', ref='DESIGN.md §5 C04',
+   technique='explicit-state BFS over histories with every persistence deviation at every freeze point, independent re-implementation of the documented Merkle hash as oracle, all insertion orders of all small key sets, pinned vectors',
+   text='The C03 search restricted to content operations with, at every freeze point, each of {plain, store+reload, store+reload+cache, serialize+deserialize, migrate}; the hash of every generation after every step, and of every persisted form, must equal an independent implementation of the documented hash over the canonical radix tree computed from the model map (so history, caching and format cannot influence it); contents and lookups survive every deviation; refreezing an unmodified traversed state reports 0 new bytes; every subset (<=4/6 keys) of an 8-key alphabet in every insertion order hashes canonically; data written by the pinned commit (serialised form and backing store) still loads to the pinned hash.',
+   note='Trusted: the reference hash in /verif/engines/mc-state/src/model.rs (written from the doc comments), /verif/oracles/trie_golden.json (generated at the pinned commit).'),
+ 'C15': dict(engine='mc-state', ref='DESIGN.md §5 C15',
+   technique='three exhaustive layers: all insert/delete words on the lock map vs. a multiset; explicit-state BFS over trie histories with up to 3 iterators; explicit-state BFS over InstanceState host-operation histories incl. interrupts vs. a handle/generation model',
+   text='(1) every word up to depth 6/8 of insert/delete on the reference-counted prefix map, all queries after every step; (2) the trie history search with a lock-centred alphabet (iterators on equal, nested and disjoint prefixes; modifications at, under, above and beside them; checkpoint/rollback/commit): modifications under a live prefix are refused and leave the state unchanged, iterators yield exactly their snapshot in order, delete_iter releases exactly one lock; (3) the contract-visible InstanceState operations (lookup/create/delete/delete_prefix/iterate/next/delete/key/read/write/resize, foreign handles) interleaved with interrupts (no change, nested call rolled back, nested call committed) against a model of handles, incarnations and generation counters with the documented return encodings.',
+   note='Trusted: hooks H1/H4 (forwarding only), the models in /verif/engines/mc-state. Contract-level end-to-end (through Wasm) is C14.'),
 }
 
 manifest = {
@@ -41,6 +53,8 @@ manifest = {
  "engines": [
    {"name": "mc-wasm", "path": "/verif/engines/mc-wasm", "serves_properties": ["C01", "C02", "C09", "C13"],
     "kind_free_text": "bounded exhaustive Wasm program enumeration on the real concordium-wasm engine vs. reference validator/interpreter"},
+   {"name": "mc-state", "path": "/verif/engines/mc-state", "serves_properties": ["C03", "C04", "C15"],
+    "kind_free_text": "explicit-state search over operation histories of the real contract-state trie vs. ordered-map model and independent hash"},
  ],
  "checks": [],
  "notes": "All checks: /verif/check <ID> --tier quick|thorough; exit 0 held / 1 VIOLATION / 2 machinery error. Known findings: /verif/known_findings.jsonl. See DESIGN.md.",
